@@ -395,10 +395,60 @@ func normalizeSetField(
 	case isSub(old) && isSub(val):
 		cfgOld, _ := old.toConfig(opts)
 		cfgVal, _ := val.toConfig(opts)
-		return mergeConfig(opts, cfgOld, cfgVal)
+		return normalizeUnite(opts, cfgOld, cfgVal)
 	default:
 		return raiseDuplicateKey(cfg, name)
 	}
+}
+
+// normalizeUnite adds the settings of from to to. Both are spellings of the
+// same object found in one input (e.g. "a.b" next to "a": {...}), so in
+// contrast to a merge no setting may be defined by both of them and the merge
+// options in use do not apply. This makes the result independent of the order
+// in which the input's keys are visited.
+func normalizeUnite(opts *options, to, from *Config) Error {
+	parent := cfgSub{to}
+
+	unite := func(old, v value, ctx context) (value, Error) {
+		switch {
+		case !isNil(old) && isNil(v):
+			return nil, nil
+		case isNil(old):
+			return v.cpy(ctx), nil
+		case isSub(old) && isSub(v):
+			cfgOld, _ := old.toConfig(opts)
+			cfgVal, _ := v.toConfig(opts)
+			return nil, normalizeUnite(opts, cfgOld, cfgVal)
+		default:
+			return nil, raiseDuplicateKey(to, ctx.field)
+		}
+	}
+
+	for k, v := range from.fields.dict() {
+		old, _ := to.fields.get(k)
+		united, err := unite(old, v, context{parent: parent, field: k})
+		if err != nil {
+			return err
+		}
+		if united != nil {
+			to.fields.set(k, united)
+		}
+	}
+
+	for i, v := range from.fields.array() {
+		var old value
+		if arr := to.fields.array(); i < len(arr) {
+			old = arr[i]
+		}
+		united, err := unite(old, v, context{parent: parent, field: fmt.Sprintf("%d", i)})
+		if err != nil {
+			return err
+		}
+		if united != nil {
+			to.fields.setAt(i, parent, united)
+		}
+	}
+	return nil
 }
 
 func normalizeStructValue(opts *options, ctx context, from reflect.Value) (value, Error) {
